@@ -12,7 +12,8 @@ from fractions import Fraction as Fr
 CLAIM = {
  'text': ('PARTIAL. Proved in Lean 4 for all rational scale edges, positions and values (wrap_in_track, wrap_identity, '
           'wrap_unique; wrap_log/wrap_log_l2p/wrap_log_nonpositive for ANY function in place of log10; offScale_*; '
-          'interp_points_on_edges, interp_cross_count_M4, filter_keeps_first_partial, ret_interpolate_points_M4): every '
+          'interp_points_on_edges, interp_cross_count_M4, filter_keeps_first (every MAX >= 1, every list), '
+          'ret_interpolate_points_M4): every '
           'value is mapped to a wrap count and a position with leftP <= pos < rightP and pos + wrap*width = L2P(value), '
           'that pair is unique, a non-positive value on a log scale is refused, and every interpolated wrap point lies '
           'strictly between the two frames on a track edge. The model is tied to PRESCfg.py/Plot.py on every run by an '
@@ -22,8 +23,8 @@ CLAIM = {
  'note': ('Floats are modelled by exact rationals; the comparison accepts a wrap count off by one only when the exact '
           'fractional part is within 2^-40 (or the float error bound) of an integer and counts those cases. math.log10 '
           'is abstract in the model: the driver is handed the float values of log10 the code computed. '
-          'filter_keeps_first_partial covers MAX_BACKUP_TRACK_CROSSING_LINES = 4 and the at most 7 pairs the caller '
-          'can produce, not every list. SVG level is oracle-only. The float-only guard `not math.isfinite(p)` of wrapPos '
+          'filter_keeps_first is proved for every MAX_BACKUP_TRACK_CROSSING_LINES >= 1 and every even-length list. '
+          'SVG level is oracle-only. The float-only guard `not math.isfinite(p)` of wrapPos '
           'cannot fire in the exact model: those inputs are counted (fp_overflow_not_in_model), not compared; the oracle '
           'there demands ExceptionLineTransBaseMath.'),
  'technique': 'Lean 4 proof (ordered field with floor, induction on the wrap loop) + error-bounded model-implementation '
